@@ -39,6 +39,49 @@ def empty_username_cases(rng):
         out.append(('emptyuser-%d' % k, cfg.conf_lines() + cfg.cfg_lines() + ['cfg strict empty-username'] + ops))
     return out
 
+def include_cases(rng, n):
+    """realm blocks spread over files reached through one `include <dir>/*.conf`: the files are read in alphabetical
+    order at the place of the include (radsecproxy.conf.5), so "the first realm block in configuration order" is the one
+    in the alphabetically first file.  Every realm has its own ReplyMessage and no server: the reject shows which won."""
+    import focus
+    out = []
+    for k in range(n):
+        cfg = focus._cfg1(rng)
+        names = rng.sample(['/@.*example\\.com$', 'sub.example.com', 'example.com', '/^[a-z]+@/', 'b.example', '*'], rng.choice([2, 3, 4]))
+        cfg.realms = []
+        for i, nm in enumerate(names):
+            r = pipeline.Realm(nm)
+            r.msg = b'realm-%d' % i
+            r.accresp = rng.random() < 0.5
+            cfg.realms.append(r)
+        lines = cfg.conf_lines()
+        # cut the realm blocks out of the main file; block i goes to a file whose name sorts at position i
+        main, blocks, cur = [], [], None
+        for l in lines:
+            body = l[5:] if l.startswith('conf ') else l
+            if cur is None and body.startswith('realm '):
+                cur = [body]
+            elif cur is not None:
+                cur.append(body)
+                if body.strip() == '}':
+                    blocks.append(cur); cur = None
+            else:
+                main.append(l)
+        fnames = sorted(rng.sample(['%02d-%s.conf' % (x, rng.choice(['a', 'm', 'z'])) for x in range(10, 99, 7)], len(blocks)))
+        incl = []
+        order = list(range(len(blocks)))
+        rng.shuffle(order)                     # the order in which the files are written does not matter
+        for i in order:
+            incl += ['inc %s %s' % (fnames[i], b) for b in blocks[i]]
+        main.append('conf include @INCDIR@/*.conf')
+        ops = []
+        for i, un in enumerate([b'alice@sub.example.com', b'bob@example.com', b'carol@b.example', b'nobody']):
+            for code in (1, 4):
+                pkt, _ = pipeline.clean_request(rng, cfg, 0, code=code, ident=50 + 2 * i + (code == 4), uname=un, ma=(code == 1))
+                ops.append('op cpkt 0 1000005 %s %s' % (pipeline.rnd40(rng), hx(pkt)))
+        out.append(('include-%d' % k, main + incl + cfg.cfg_lines() + ops))
+    return out
+
 def _is_empty_username_drop(case, impl_lines, model_lines, problems):
     """the recorded finding and nothing else: the only failing spec is C08_star_matches_empty_username, there is no
     model/implementation mismatch, and the case is one of the dedicated ones"""
@@ -87,4 +130,4 @@ def generate(rng, tier):
     cases += pipeline.guided_cases(rng, 400 if tier == 'thorough' else 25, lambda rng, cfg: pipeline.history(rng, cfg, 10), 'route', rich=False, cfgmod=mod)
     import focus
     cases += focus.noserver_cases(rng, 4 if tier == 'thorough' else 1)
-    return empty_username_cases(rng) + cases
+    return empty_username_cases(rng) + include_cases(rng, 60 if tier == 'thorough' else 8) + cases
